@@ -101,25 +101,20 @@ Lemma do_rx_events s m :
   forall e, In e (snd (do_rx s m)) -> is_deliver e = false /\ is_swallow e = false.
 Proof.
   unfold do_rx.
-  destruct (find_key (sessions s) (m_key m)) as [se|].
-  - destruct (session_post_recv se m (now s)) as [se1 [b|c|p]]; cbn zeta.
-    + destruct (is_standalone_ack (m_op m)); [intros e []|].
-      destruct (m_op m); cbn; intros e [<-|[]]; split; reflexivity.
-    + destruct (c =? ERR_DUPLICATE).
-      { destruct (is_standalone_ack (m_op m)); cbn; [intros e []|intros e [<-|[]]; split; reflexivity]. }
-      destruct (c =? ERR_NO_SPACE_EXCHANGES); [cbn; intros e [<-|[]]; split; reflexivity|].
-      destruct (c =? ERR_NO_SESSION); cbn; [intros e [<-|[]]; split; reflexivity|intros e []].
-    + cbn. intros e [].
-  - destruct (negb (m_enc m) && is_new_session (m_op m)).
-    + destruct (session_post_recv _ m (now s)) as [se1 [b|c|p]]; cbn zeta.
-      * destruct (is_standalone_ack (m_op m)); [intros e []|].
-        destruct (m_op m); cbn; intros e [<-|[]]; split; reflexivity.
-      * destruct (c =? ERR_DUPLICATE).
-        { destruct (is_standalone_ack (m_op m)); cbn; [intros e []|intros e [<-|[]]; split; reflexivity]. }
-        destruct (c =? ERR_NO_SPACE_EXCHANGES); [cbn; intros e [<-|[]]; split; reflexivity|].
-        destruct (c =? ERR_NO_SESSION); cbn; [intros e [<-|[]]; split; reflexivity|intros e []].
-      * cbn. intros e [].
-    + cbn. intros e [<-|[]]; split; reflexivity.
+  repeat match goal with
+         | |- context [match ?x with _ => _ end] =>
+             match type of x with
+             | sumbool _ _ => fail 1
+             | _ => destruct x
+             end
+         | |- context [let '(_, _) := ?x in _] => destruct x
+         end;
+    cbn; intros e0 Hin;
+    repeat match goal with
+           | H : _ \/ _ |- _ => destruct H
+           | H : False |- _ => destruct H
+           | H : _ = e0 |- _ => subst e0
+           end; split; reflexivity.
 Qed.
 
 (** * Routing soundness *)
@@ -128,8 +123,8 @@ Qed.
     the session it arrived on, its exchange id and its initiator flag identify
     that exchange, and the exchange is owned (never accept-pending, never
     dropped); the repaired code never discards a message through [recv]. *)
-Theorem routing_sound s l s' ev :
-  reachable s -> step false s l = Some (s', ev) ->
+Theorem routing_sound_inv s l s' ev :
+  Inv s -> step false s l = Some (s', ev) ->
   (forall e, In e ev -> is_swallow e = false) /\
   forall sid idx m, In (EvDeliver sid idx m) ev ->
     l = LRecv sid idx /\ rx s = RxHolding m /\ rx s' = RxTaken m sid idx /\
@@ -138,7 +133,7 @@ Theorem routing_sound s l s' ev :
       nth_error (s_exchs se) idx = Some (Some e) /\
       e_id e = m_exid m /\ m_init m = is_responder (e_role e) /\ is_owned (e_role e) = true.
 Proof.
-  intros R H. pose proof (reachable_inv _ R) as I.
+  intros I H.
   assert (Hno : forall evs : list event, (forall e, In e evs -> is_deliver e = false /\ is_swallow e = false) ->
             (forall e, In e evs -> is_swallow e = false) /\
             forall sid idx m, In (EvDeliver sid idx m) evs -> False).
@@ -148,7 +143,7 @@ Proof.
   assert (Hone : forall x, is_deliver x = false -> is_swallow x = false ->
             (forall e, In e [x] -> is_deliver e = false /\ is_swallow e = false)).
   { intros x H1 H2 e [<-|[]]. split; assumption. }
-  destruct l as [m| |sid idx|sid idx|sid idx|sid idx ctr rel|sid exid| | | |key enc|sid|sid|d]; cbn [step] in H.
+  destruct l as [m| |sid idx|sid idx|sid idx|sid idx ctr rel|sid exid| | | |key enc grp|sid|sid|d]; cbn [step] in H.
   - destruct (rx s); try discriminate. inversion H as [H1].
     assert (Hev : ev = snd (do_rx s m)) by (rewrite H1; reflexivity).
     destruct (Hno ev) as [A B]; [rewrite Hev; apply do_rx_events|].
@@ -176,11 +171,18 @@ Proof.
     destruct (Hno _ Hnil) as [A B]. split; [exact A|]. intros x y z Hin. destruct (B x y z Hin).
   - destruct (has_handle s sid idx); [|discriminate]. inversion H; subst.
     destruct (Hno _ Hnil) as [A B]. split; [exact A|]. intros x y z Hin. destruct (B x y z Hin).
-  - destruct (has_handle s sid idx); [|discriminate].
-    destruct (find_sid (sessions s) sid) as [se|]; [|discriminate].
-    destruct (nth_error (s_exchs se) idx) as [[e|]|]; try discriminate.
-    destruct (rm_pre_send (e_mrp e) ctr rel None) as [r' [v|c|p]]; try discriminate; inversion H; subst;
-      destruct (Hno _ Hnil) as [A B]; (split; [exact A|]); intros x y z Hin; destruct (B x y z Hin).
+  - destruct (has_handle s sid idx); [|discriminate]. cbn zeta in H.
+    assert (Hq : forall q, Some (q, @nil event) = Some (s', ev) ->
+              (forall e, In e ev -> is_swallow e = false) /\
+              forall sid idx m, In (EvDeliver sid idx m) ev -> False).
+    { intros q Hq. inversion Hq; subst. destruct (Hno _ Hnil) as [A B]. split; [exact A|exact B]. }
+    assert (Hdone : (forall e, In e ev -> is_swallow e = false) /\
+              (forall sid idx m, In (EvDeliver sid idx m) ev -> False)).
+    { destruct (find_sid (sessions s) sid) as [se|]; [|eapply Hq; exact H].
+      destruct (nth_error (s_exchs se) idx) as [[e|]|]; try (eapply Hq; exact H).
+      destruct (s_group se); [eapply Hq; exact H|].
+      destruct (rm_pre_send (e_mrp e) ctr rel None) as [r' [v|c|p]]; try discriminate; eapply Hq; exact H. }
+    destruct Hdone as [A B]. split; [exact A|]. intros x y z Hin. destruct (B x y z Hin).
   - destruct (find_sid (sessions s) sid) as [se|]; [|discriminate].
     destruct (s_expired se); [discriminate|].
     destruct (add_exch (s_exchs se) _) as [[l' i]|]; [|discriminate]. inversion H; subst.
@@ -201,7 +203,9 @@ Proof.
     destruct (retrans_pending e).
     + inversion H; subst. destruct (Hno _ (Hone (EvCloseSession sid i) eq_refl eq_refl)) as [A B].
       split; [exact A|]. intros a b c Hin. destruct (B a b c Hin).
-    + inversion H; subst. destruct (rm_ack (e_mrp e)) as [a0|]; [destruct (a_acked a0)|].
+    + inversion H; subst. destruct (is_group_sid (sessions s) sid).
+      { destruct (Hno _ Hnil) as [A B]. split; [exact A|]. intros x y z Hin. destruct (B x y z Hin). }
+      destruct (rm_ack (e_mrp e)) as [a0|]; [destruct (a_acked a0)|].
       * destruct (Hno _ Hnil) as [A B]. split; [exact A|]. intros x y z Hin. destruct (B x y z Hin).
       * destruct (Hno _ (Hone (EvStandaloneAck sid i (a_ctr a0)) eq_refl eq_refl)) as [A B].
         split; [exact A|]. intros a b c Hin. destruct (B a b c Hin).
@@ -213,6 +217,17 @@ Proof.
     destruct (Hno _ Hnil) as [A B]. split; [exact A|]. intros x y z Hin. destruct (B x y z Hin).
   - inversion H; subst. destruct (Hno _ Hnil) as [A B]. split; [exact A|]. intros x y z Hin. destruct (B x y z Hin).
 Qed.
+
+Theorem routing_sound s l s' ev :
+  reachable s -> step false s l = Some (s', ev) ->
+  (forall e, In e ev -> is_swallow e = false) /\
+  forall sid idx m, In (EvDeliver sid idx m) ev ->
+    l = LRecv sid idx /\ rx s = RxHolding m /\ rx s' = RxTaken m sid idx /\
+    In (sid, idx) (handles s) /\
+    exists se e, In se (sessions s) /\ s_id se = sid /\ s_key se = m_key m /\
+      nth_error (s_exchs se) idx = Some (Some e) /\
+      e_id e = m_exid m /\ m_init m = is_responder (e_role e) /\ is_owned (e_role e) = true.
+Proof. intros R. apply routing_sound_inv. apply reachable_inv. exact R. Qed.
 
 (** * No wedge *)
 
@@ -253,10 +268,10 @@ Inductive discharger (s : sys) (m : msg) : Prop :=
     discharger s m.
 
 
-Theorem no_wedge s m :
-  reachable s -> rx s = RxHolding m -> discharger s m.
+Theorem no_wedge_inv s m :
+  Inv s -> rx s = RxHolding m -> discharger s m.
 Proof.
-  intros R Hrx. pose proof (reachable_inv _ R) as I.
+  intros I Hrx.
   assert (Horph : forall (P : Prop),
             (owner_of (sessions s) m = None \/
              exists se i e, owner_of (sessions s) m = Some (se, i, e) /\ is_dropped (e_role e) = true) ->
@@ -301,6 +316,10 @@ Proof.
     apply DisOrphan; [right; exists se, i, e; rewrite Hr; split; [exact Ho|reflexivity]|].
     apply (Horph True). right. exists se, i, e. rewrite Hr. split; reflexivity.
 Qed.
+
+Theorem no_wedge s m :
+  reachable s -> rx s = RxHolding m -> discharger s m.
+Proof. intros R. apply no_wedge_inv. apply reachable_inv. exact R. Qed.
 
 (** once the slot is empty any datagram is processed; a slot taken by an
     Exchange is released when that Exchange lets go of the message or is dropped *)
@@ -348,9 +367,11 @@ Theorem closed_cleanly s :
     ( (retrans_pending e = true /\ ev = [EvCloseSession sid i] /\
        sessions s' = remove_sid (sessions s) sid)
       \/
-      (retrans_pending e = false /\ sessions s' = set_slot (sessions s) sid i None /\
-       ( (ack_pending e = true /\ exists c, ev = [EvStandaloneAck sid i c])
-         \/ (ack_pending e = false /\ ev = [])))).
+      (retrans_pending e = false /\ sessions s' = group_gc (set_slot (sessions s) sid i None) sid /\
+       ( (is_group_sid (sessions s) sid = true /\ ev = [])
+         \/ (is_group_sid (sessions s) sid = false /\ ack_pending e = true /\
+             exists c, ev = [EvStandaloneAck sid i c])
+         \/ (is_group_sid (sessions s) sid = false /\ ack_pending e = false /\ ev = [])))).
 Proof.
   intros [se [i [e [Hse [Hn Hd]]]]].
   destruct (pick_dropped (sessions s)) as [[[sid j] x]|] eqn:Hpk.
@@ -362,10 +383,11 @@ Proof.
     + exists sid, j, x. eexists _, _. split; [reflexivity|]. split; [exists se1; exact R|].
       cbn [rx handles sessions]. split; [reflexivity|]. split; [reflexivity|].
       right. split; [exact Hr|]. split; [reflexivity|].
+      destruct (is_group_sid (sessions s) sid); [left; split; reflexivity|right].
       unfold ack_pending. destruct (rm_ack (e_mrp x)) as [a|]; [destruct (a_acked a)|]; cbn.
-      * right. split; reflexivity.
-      * left. split; [reflexivity|]. eexists. reflexivity.
-      * right. split; reflexivity.
+      * right. repeat split.
+      * left. split; [reflexivity|]. split; [reflexivity|]. eexists. reflexivity.
+      * right. repeat split.
   - exfalso. unfold pick_dropped in Hpk.
     destruct (find_dropped retrans_pending (sessions s)) eqn:H1; [discriminate|].
     pose proof (find_dropped_none _ _ H1 se i e Hse Hn Hd) as A.
@@ -374,19 +396,35 @@ Qed.
 
 (** * Answers to unknown exchanges are dropped *)
 
+Lemma find_exch_strip l m : find_exch l (strip_mrp m) = find_exch l m.
+Proof.
+  unfold find_exch.
+  assert (E : find_index (slot_is_for_rx (strip_mrp m)) l = find_index (slot_is_for_rx m) l).
+  { induction l as [|a t IH]; [reflexivity|]. cbn [find_index].
+    replace (slot_is_for_rx (strip_mrp m) a) with (slot_is_for_rx m a) by (destruct a; reflexivity).
+    rewrite IH. reflexivity. }
+  rewrite E. reflexivity.
+Qed.
+
 Theorem unknown_dropped s m se :
   rx s = RxEmpty -> find_key (sessions s) (m_key m) = Some se ->
   find_exch (s_exchs se) m = None ->
   (m_init m = false \/ is_new_exchange (m_op m) = false) ->
+  is_close (m_op m) = false ->
   exists s' ev, step false s (LRx m) = Some (s', ev) /\
     rx s' = RxEmpty /\ handles s' = handles s /\
     (ev = [] \/ ev = [EvDupAck (m_key m) (m_ctr m)]) /\
     forall se', In se' (sessions s') ->
       exists se0, In se0 (sessions s) /\ s_id se' = s_id se0 /\ s_exchs se' = s_exchs se0.
 Proof.
-  intros Hrx Hk Hnone Hgate. cbn [step]. rewrite Hrx. unfold do_rx. rewrite Hk.
-  destruct (session_post_recv se m (now s)) as [se1 r] eqn:Hp.
-  destruct (unknown_rejected _ _ _ _ _ Hp Hnone Hgate) as [Hr He].
+  intros Hrx Hk Hnone Hgate Hcl. cbn [step]. rewrite Hrx. unfold do_rx. rewrite Hk.
+  set (m1 := if s_group se then strip_mrp m else m).
+  assert (Hnone1 : find_exch (s_exchs se) m1 = None).
+  { unfold m1. destruct (s_group se); [rewrite find_exch_strip|]; exact Hnone. }
+  assert (Hgate1 : m_init m1 = false \/ is_new_exchange (m_op m1) = false).
+  { unfold m1. destruct (s_group se); exact Hgate. }
+  destruct (session_post_recv se m1 (now s)) as [se1 r] eqn:Hp.
+  destruct (unknown_rejected _ _ _ _ _ Hp Hnone1 Hgate1) as [Hr He].
   destruct (session_post_recv_fields _ _ _ _ _ Hp) as [Eid _].
   destruct (find_key_some _ _ _ Hk) as [Hse _].
   assert (Hsess : forall se', In se' (upd_sid (sessions s) (s_id se) (fun _ => se1)) ->
@@ -395,9 +433,56 @@ Proof.
     - exists se. repeat split; assumption.
     - exists y. repeat split. exact Hy. }
   cbn zeta. destruct Hr as [-> | ->].
-  - cbn. eexists _, _. split; [reflexivity|]. cbn [rx handles sessions]. repeat split; try (left; reflexivity). exact Hsess.
-  - cbn. destruct (is_standalone_ack (m_op m)); eexists _, _; (split; [reflexivity|]); cbn [rx handles sessions];
+  - cbn. rewrite Hcl. cbn. eexists _, _. split; [reflexivity|]. cbn [rx handles sessions].
+    repeat split; try (left; reflexivity). exact Hsess.
+  - cbn. destruct (m_group m || is_standalone_ack (m_op m)); eexists _, _; (split; [reflexivity|]);
+      cbn [rx handles sessions];
       repeat split; try (left; reflexivity); try (right; reflexivity); exact Hsess.
+Qed.
+
+(** * A peer's CloseSession takes effect whatever exchange it arrives on *)
+
+Theorem peer_close_honoured s m se :
+  Inv s -> rx s = RxEmpty -> find_key (sessions s) (m_key m) = Some se ->
+  snd (post_recv (s_win se) (m_ctr m) (s_enc se) false) = true ->
+  m_op m = OpScClose ->
+  (find_exch (s_exchs se) m = None \/ m_ack m = None) ->
+  exists s', step false s (LRx m) = Some (s', [EvPeerClosed (s_id se)]) /\
+    rx s' = RxEmpty /\ handles s' = handles s /\
+    (forall x, In x (sessions s') -> In x (sessions s) /\ s_id x <> s_id se).
+Proof.
+  intros I Hrx Hk Hfresh Hop Hm. cbn [step]. rewrite Hrx. unfold do_rx. rewrite Hk.
+  destruct (find_key_some _ _ _ Hk) as [Hse _].
+  set (m1 := if s_group se then strip_mrp m else m).
+  assert (Hctr : m_ctr m1 = m_ctr m) by (unfold m1; destruct (s_group se); reflexivity).
+  assert (Hop1 : m_op m1 = OpScClose) by (unfold m1; destruct (s_group se); exact Hop).
+  assert (Hm1 : find_exch (s_exchs se) m1 = None \/ m_ack m1 = None).
+  { unfold m1. destruct (s_group se); [right; reflexivity|exact Hm]. }
+  destruct (session_post_recv se m1 (now s)) as [se1 r] eqn:Hp.
+  destruct (session_post_recv_fields _ _ _ _ _ Hp) as [Eid _].
+  (* the result is Ok false (matched) or NoExchange (unmatched) *)
+  assert (Hr : (exists b, r = Ok b) \/ r = Err ERR_NO_EXCHANGE).
+  { destruct (session_post_recv_cases _ _ _ _ _ Hp) as [[Hf _]|[_ [C|C]]].
+    - rewrite Hctr in Hf. congruence.
+    - destruct C as [i [e [Hfe C]]]. destruct Hm1 as [Hn|Hack]; [congruence|].
+      destruct C as [[e' [_ [-> _]]]|[Hr1 [Hr2 _]]]; [left; eexists; reflexivity|].
+      exfalso. revert Hp. unfold session_post_recv.
+      destruct (post_recv (s_win se) (m_ctr m1) (s_enc se) false) as [w' fr] eqn:Hw.
+      rewrite Hctr in Hw. rewrite Hw in Hfresh. cbn in Hfresh. subst fr. cbn [negb].
+      rewrite Hfe. unfold exch_post_recv, rm_post_recv. rewrite Hack.
+      intros H; inversion H; subst. apply Hr1. reflexivity.
+    - destruct C as [_ [[_ [-> _]]|[[_ [Hn _]]|[[_ [Hn _]]|[_ [Hn _]]]]]]; [right; reflexivity| | |];
+        rewrite Hop1 in Hn; discriminate. }
+  set (ss1 := upd_sid (sessions s) (s_id se) (fun _ => se1)).
+  assert (Hnd1 : NoDup (map s_id ss1)).
+  { unfold ss1. rewrite map_id_upd_sid by (intros; congruence). apply (inv_nodup _ I). }
+  assert (Hfin : forall x, In x (remove_sid ss1 (s_id se)) ->
+            In x (sessions s) /\ s_id x <> s_id se).
+  { intros x Hx. pose proof (in_remove_sid_ne _ _ _ Hnd1 Hx) as Hne. split; [|exact Hne].
+    apply in_remove_sid in Hx. destruct (in_upd_sid _ _ _ _ Hx) as [y [Hy [[Ey ->]|[Ey ->]]]]; [congruence|exact Hy]. }
+  fold ss1. cbn zeta. destruct Hr as [[b ->]| ->].
+  - rewrite Hop. cbn. eexists. split; [reflexivity|]. cbn [rx handles sessions]. split; [reflexivity|]. split; [reflexivity|]. exact Hfin.
+  - rewrite Hop. cbn. eexists. split; [reflexivity|]. cbn [rx handles sessions]. split; [reflexivity|]. split; [reflexivity|]. exact Hfin.
 Qed.
 
 (** * The unrepaired receive path discards other exchanges' messages
@@ -408,10 +493,10 @@ Qed.
     the pending exchange stays behind without its message (no sweeper looks at
     it any more). *)
 
-Definition w_m1 : msg := mkMsg 1 true 1 10 true OpOrdinary true None.
-Definition w_m2 : msg := mkMsg 2 true 1 20 true OpOrdinary true None.
+Definition w_m1 : msg := mkMsg 1 true false 1 10 true OpOrdinary true None.
+Definition w_m2 : msg := mkMsg 2 true false 1 20 true OpOrdinary true None.
 Definition w_trace : list label :=
-  [LAddSession 1 true; LAddSession 2 true; LRx w_m1; LAccept; LRecv 0 0; LRxDone 0 0;
+  [LAddSession 1 true false; LAddSession 2 true false; LRx w_m1; LAccept; LRecv 0 0; LRxDone 0 0;
    LRemoveSession 0; LRx w_m2].
 
 Lemma unrepaired_recv_swallows :
